@@ -12,7 +12,7 @@ import (
 )
 
 func init() {
-	props["C17"] = &propDef{run: runC17, explanation: "Partial. Decided statically: (P1) ResolveDocument succeeds only across the true edge of strings.HasPrefix(did, namespace + \":\") with the handler's own namespace field — the delimiter is part of the gate; (D1) no function reachable from VDR.Create / Client.CreateDID / the request builders iterates a map with an order-sensitive effect (append/indexed store that survives the loop without a sort, string accumulation, first-match return): DID creation cannot depend on Go's map iteration order; (G1) parseInitialState accepts only on the false edge of b64(JCS(decoded create request)) != supplied initial state, where the request is decoded from the base64url-decoded parameter; ParseDID splits the long form at the last ':'; resolveRequestWithInitialState accepts only across Parse(namespace, initial bytes) (full non-batch validation, C07) and the false edge of suffix != parsed suffix; short-form DIDs (no create request) and DIDs with fewer than three parts are refused; (P2) unpublished transformation info and GetCreateResult wiring. Not decided: that the document read back equals the document created (did-go parsing, behavioural). ProcessOperation: the initial state of the returned DID is b64url(JCS(request bytes)) and its suffix the parsed operation's. (T1) creation maps each verification relationship to the key purpose of the same name (switch or table form). (D2) random key generation in the creation call tree runs only on the edge 'the key option is absent'. The parser's acceptance rules (C07) run inside this check; no equivalent id of an unpublished document carries the initial state. The requested suffix is the last segment verbatim; the raw-document builder rules of C08 and the published-ids rule run here too. (D3) dochandler.New receives did: + the configured method, read after the options; both transformer steps precede every accepting exit."}
+	props["C17"] = &propDef{run: runC17, explanation: "Partial. Decided statically: (P1) ResolveDocument succeeds only across the true edge of strings.HasPrefix(did, namespace + \":\") with the handler's own namespace field — the delimiter is part of the gate; (D1) no function reachable from VDR.Create / Client.CreateDID / the request builders iterates a map with an order-sensitive effect (append/indexed store that survives the loop without a sort, string accumulation, first-match return): DID creation cannot depend on Go's map iteration order; (G1) parseInitialState accepts only on the false edge of b64(JCS(decoded create request)) != supplied initial state, where the request is decoded from the base64url-decoded parameter; ParseDID splits the long form at the last ':'; resolveRequestWithInitialState accepts only across Parse(namespace, initial bytes) (full non-batch validation, C07) and the false edge of suffix != parsed suffix; short-form DIDs (no create request) and DIDs with fewer than three parts are refused; (P2) unpublished transformation info and GetCreateResult wiring. Not decided: that the document read back equals the document created (did-go parsing, behavioural). ProcessOperation: the initial state of the returned DID is b64url(JCS(request bytes)) and its suffix the parsed operation's. (T1) creation maps each verification relationship to the key purpose of the same name (switch or table form). (D2) random key generation in the creation call tree runs only on the edge 'the key option is absent'. The parser's acceptance rules (C07) run inside this check; no equivalent id of an unpublished document carries the initial state. The requested suffix is the last segment verbatim; the raw-document builder rules of C08 and the published-ids rule run here too. (D3) dochandler.New receives did: + the configured method, read after the options; both transformer steps precede every accepting exit. All of C10 and the JCS rules run inside this check; GetCreateResult hands on the applier's model; relationship lists do not share storage."}
 }
 
 // mapRangeOrderEffects reports order-sensitive effects of map iterations in f.
